@@ -9,7 +9,7 @@ checks=()
 for a in "$@"; do if [ "$a" == "--no-suite" ]; then suite=0; else checks+=($a); fi; done
 rm -rf $wt; git -C /repo worktree prune
 git -C /repo worktree add -q --detach $wt ${BASE:-HEAD} || exit 2
-( cd $wt && git apply $src/patch.diff ) || { echo "PATCH DOES NOT APPLY"; git -C /repo worktree remove --force $wt; exit 2; }
+( cd $wt && git apply $src/${PATCH:-patch.diff} ) || { echo "PATCH DOES NOT APPLY"; git -C /repo worktree remove --force $wt; exit 2; }
 echo "== demo on clean tree:"; ( cd ${CLEAN:-/repo} && timeout 600 /venv/bin/python -W ignore $src/demo.py 2>&1 | tail -3; echo "exit=${PIPESTATUS[0]}" )
 echo "== demo on patched:";      ( cd $wt && timeout 600 /venv/bin/python -W ignore $src/demo.py 2>&1 | tail -3; echo "exit=${PIPESTATUS[0]}" )
 if [ $suite == 1 ]; then echo "== pinned suite on patched tree:"; /verif/tools/baseline.py $wt | tail -3; fi
